@@ -400,6 +400,26 @@ def explore(ctx):
                     ctx.nontriv(('gcda', text, req))
                 if why:
                     ctx.violation('binary-gcda-mono', f'gcda-binary on {text!r} required {list(req)}: {why}', {'kind': 'gcda', 'n': n, 'param': list(req)})
+    # the cursors of the real IfPass when every candidate is rejected, against the model for which C06_ifs_tries_both_values is proved
+    from cvise.passes.ifs import IfPass
+    ifs_cases = []
+    for n in range(0, 9 if ctx.quick() else 20):
+        pth = os.path.join(ctx.tmp, 'tc-ifs-enum.c')
+        with open(pth, 'w') as f:
+            f.write('head\n' + ''.join(f'#if A{i}\nx\n#endif\n' for i in range(n)))
+        ip = IfPass(None, {'unifdef': os.path.join(STANDINS, 'unifdef')})
+        st_, out_ = ip.new(pth, None), []
+        while st_ is not None and len(out_) < 40000:
+            out_ += [st_.index, st_.chunk, st_.instances, st_.value]
+            st_ = ip.advance(pth, st_)
+        ifs_cases.append((str(n), out_))
+        ctx.evaluations += 1
+        ctx.count('ifs:all-reject-cursors')
+    badi = coq.corr_eval('c06ifs', imports, 'ifs_enum_case', ifs_cases, shard=50)
+    ctx.corr_cases += len(ifs_cases)
+    ctx.corr_disagree += len(badi)
+    for b in badi[:5]:
+        ctx.broke('correspondence', 'ifs_enum vs IfPass.new/advance', f'n={ifs_cases[b][0]} impl {ifs_cases[b][1][:40]}')
     # lines with a formatter argument: the pass object is reused across files; a bail-out on one file must not stick
     for arg in ('1', '2'):
         pass_, st, restored = bailed_out_lines_pass(ctx, arg)
@@ -472,7 +492,7 @@ def replay(ctx, payload):
 LEVEL_TEXT = ('Machine-checked theorems (Coq, closed under the global context) about a model of BinaryState and the '
               'sequential reduction loop: for every list, every verdict function and every required predicate — '
               'ranges in bounds, termination within (n+1)(n+2) candidates, exact result for monotone tests, all '
-              'singles tried and sweeps tiling 0..n when nothing was accepted, no skip after an accept. The model is '
+              'singles tried and sweeps tiling 0..n when nothing was accepted, no skip after an accept; the IfPass cursor offers every range with both values. The model is '
               'tied to the real BinaryState / LinesPass / LineMarkersPass on every run by a correspondence check '
               'evaluated inside Coq; the property oracle is also evaluated directly on the real runs.')
 LEVEL_NOTE = ('Trusted: Coq kernel; hand-written model (validated each run against the code on exhaustive small state '
